@@ -39,7 +39,7 @@ func (c09) Classes() []sim.Class {
 	}
 	for _, e := range []string{"interpreter", "compiler"} {
 		cs = append(cs, sim.Class{Name: "dangling-reference", Engine: e, Quick: 1, Thorough: 3, ExpectDeath: true, Batch: 1, RunTimeoutSec: 120,
-			DeathPattern: "SIGSEGV|fatal error|unexpected fault address|invalid pointer|unexpected signal|found bad pointer|invalid memory address", KnownSig: danglingSig})
+			DeathPattern: "SIGSEGV|fatal error|unexpected fault address|invalid pointer|unexpected signal|found bad pointer|invalid memory address|2880154539|abababab", KnownSig: danglingSig})
 	}
 	return cs
 }
@@ -231,7 +231,27 @@ func outcome(res []uint64, err error) string {
 
 // drainFinalizers forces a collection and waits until the finalizer goroutine
 // has processed what that collection queued.
+// heapFill holds small poison objects allocated right after a forced collection, so that memory the
+// collector just freed (a dangling function record, a table's old backing array) is likely reused and
+// a stale pointer into it reads 0xAB bytes instead of its old, still intact content.
+var heapFill [][]byte
+
+func refillHeap() {
+	heapFill = heapFill[:0]
+	for _, sz := range []int{16, 24, 32, 48, 64, 80, 96, 128} {
+		for i := 0; i < 4000; i++ {
+			b := make([]byte, sz)
+			for j := range b {
+				b[j] = 0xAB
+			}
+			heapFill = append(heapFill, b)
+		}
+	}
+}
+
 func drainFinalizers(cycles int) {
+	defer refillHeap()
+	heapFill = nil
 	for i := 0; i < cycles; i++ {
 		done := make(chan struct{})
 		s := new([64]byte)
@@ -419,6 +439,26 @@ func (r *runner) compareCall(what string, i int, fn string, args ...uint64) {
 				r.res.Fail("behaviour-changed", "%s returned %s; the slot holds the function a failed importer's element segment left there, which computes %s", what, got, exp)
 				return
 			}
+		}
+	}
+	// results known without the twin (a collection hits both runtimes alike, so a dangling record would
+	// corrupt both): slot 0 of A's table always holds A.inc, inc(x) = x + k
+	if !strings.HasPrefix(got, "error: ") {
+		var exp string
+		kOf := func(j int) int32 { return r.real.insts[j].k }
+		switch {
+		case fn == "inc" && real.kind == 'A':
+			exp = fmt.Sprintf("[%d]", uint32(int32(args[0])+real.k))
+		case fn == "callslot" && real.kind == 'A' && args[0] == 0:
+			exp = fmt.Sprintf("[%d]", uint32(int32(args[1])+real.k))
+		case fn == "viatab" && real.definer >= 0:
+			exp = fmt.Sprintf("[%d]", uint32(int32(args[0])+kOf(real.definer)))
+		case fn == "twice" && real.definer >= 0:
+			exp = fmt.Sprintf("[%d]", uint32(int32(args[0])+2*kOf(real.definer)))
+		}
+		if exp != "" && got != exp && !(r.poison && r.freed > 0 && poisonDiff(got, exp)) {
+			r.res.Fail("behaviour-changed", "%s returned %s; it computes %s whatever was closed or collected (the twin runtime returned %s)", what, got, exp, want)
+			return
 		}
 	}
 	if got != want && r.poison && r.freed > 0 && poisonDiff(got, want) {
